@@ -36,10 +36,16 @@ def symptom(expect, ans, cls=None):
         return "short-by-one" if (cls == "pow10" and ans["guard"] == "lo") else "write-outside-buffer-" + ans["guard"]
     if "n" in expect and "n" in ans and ans.get("rc") == "0" and int(ans["n"]) == expect["n"] - 1:
         return "short-by-one"
+    if expect.get("exact_len") and ans.get("rc") == "0" and int(ans["touched"]) > int(ans["n"]) + 1:
+        return "more-bytes-produced-than-reported"
     return "wrong-result"
 
 def matches(expect, f):
     if f.get("guard", "ok") != "ok": return False
+    # "reported lengths equal the number of bytes produced": nothing but an optional terminating NUL may have
+    # been stored behind the reported bytes (upper bound only: output that happens to end in the fill byte
+    # 0xA5 makes `touched` smaller, never larger)
+    if expect.get("exact_len") and int(f["touched"]) > int(f["n"]) + 1: return False
     if "rc" in expect and int(f["rc"]) != expect["rc"]: return False
     if "n" in expect and int(f["n"]) != expect["n"]: return False
     if "out" in expect:
@@ -87,17 +93,17 @@ def base64_cases(ctx, cases):
         src = bytes(c["in"]); enc = bytes(c["enc"]); encnp = bytes(c["encnp"])
         nt = len(src) > 0
         # capacity = text + terminating NUL (the NUL at dst[reported] is C12's subject, not C14's)
-        p.case("b64enc %s %d" % (hexs(src), len(enc) + 1), dict(rc=0, n=len(enc), out=enc), "base64:encode", nontrivial=nt)
-        p.case("b64dec %s %d" % (hexs(enc), len(enc) + 4), dict(rc=0, n=len(src), out=src), "base64:decode", nontrivial=nt)
+        p.case("b64enc %s %d" % (hexs(src), len(enc) + 1), dict(exact_len=True, rc=0, n=len(enc), out=enc), "base64:encode", nontrivial=nt)
+        p.case("b64dec %s %d" % (hexs(enc), len(enc) + 4), dict(exact_len=True, rc=0, n=len(src), out=src), "base64:decode", nontrivial=nt)
         if encnp != enc:
-            p.case("b64dec %s %d" % (hexs(encnp), len(enc) + 4), dict(rc=0, n=len(src), out=src), "base64:decode-unpadded")
+            p.case("b64dec %s %d" % (hexs(encnp), len(enc) + 4), dict(exact_len=True, rc=0, n=len(src), out=src), "base64:decode-unpadded")
         for j in ("j1", "j2", "j3"):
             t = bytes(c[j])
             p.case("b64decfmt %s %d" % (hexs(t), len(t) + 4), dict(rc=0, n=len(src), out=src), "base64:decode_fmt:" + j)
         t = bytes(c["j1"]); syms = bytes(c["syms"])
-        p.case("b64encopy %s %d" % (hexs(t), len(t) + 1), dict(rc=0, n=len(syms), out=syms), "base64:en_copy")
+        p.case("b64encopy %s %d" % (hexs(t), len(t) + 1), dict(exact_len=True, rc=0, n=len(syms), out=syms), "base64:en_copy")
         t = bytes(c["j3"])       # invariant FilterLaw: OnlySyms(J3(E)) = StripPad(E)
-        p.case("b64encopy %s %d" % (hexs(t), len(t) + 1), dict(rc=0, n=len(encnp), out=encnp), "base64:en_copy")
+        p.case("b64encopy %s %d" % (hexs(t), len(t) + 1), dict(exact_len=True, rc=0, n=len(encnp), out=encnp), "base64:en_copy")
     return p
 
 def hex_cases(ctx, cases):
@@ -105,9 +111,9 @@ def hex_cases(ctx, cases):
     for c in cases:
         src = bytes(c["in"]); hl = bytes(c["hexl"]); hu = bytes(c["hexu"]); hm = bytes(c["hexm"])
         # either letter case is "the standard" (RFC 4648 base16 is case-insensitive on decode)
-        p.case("bin2hex %s %d" % (hexs(src), len(hl) + 1), dict(rc=0, n=len(hl), out=(hl, hu)), "hex:bin2hex")
+        p.case("bin2hex %s %d" % (hexs(src), len(hl) + 1), dict(exact_len=True, rc=0, n=len(hl), out=(hl, hu)), "hex:bin2hex")
         for nm, t in (("lower", hl), ("upper", hu), ("mixed", hm)):
-            p.case("hex2bin %s %d" % (hexs(t), len(src)), dict(rc=0, n=len(src), out=src), "hex:hex2bin:" + nm)
+            p.case("hex2bin %s %d" % (hexs(t), len(src)), dict(exact_len=True, rc=0, n=len(src), out=src), "hex:hex2bin:" + nm)
     return p
 
 def xml_cases(ctx, cases):
@@ -116,10 +122,10 @@ def xml_cases(ctx, cases):
         src = bytes(c["in"]); enc = bytes(c["enc"]); dec = bytes(c["dec"])
         cap = len(src) + len(enc) + 16       # generous: mem_replace_arr's capacity test is C12's subject
         nt = any(ch in b"'\"&<>" for ch in src)
-        p.case("xmlenc %s %d" % (hexs(src), cap), dict(rc=0, n=len(enc), out=enc), "xml:encode", nontrivial=nt)
-        p.case("xmldec %s %d" % (hexs(enc), cap), dict(rc=0, n=len(src), out=src), "xml:decode-of-encoded", nontrivial=nt)
+        p.case("xmlenc %s %d" % (hexs(src), cap), dict(exact_len=True, rc=0, n=len(enc), out=enc), "xml:encode", nontrivial=nt)
+        p.case("xmldec %s %d" % (hexs(enc), cap), dict(exact_len=True, rc=0, n=len(src), out=src), "xml:decode-of-encoded", nontrivial=nt)
         if dec != src:
-            p.case("xmldec %s %d" % (hexs(src), cap), dict(rc=0, n=len(dec), out=dec), "xml:decode")
+            p.case("xmldec %s %d" % (hexs(src), cap), dict(exact_len=True, rc=0, n=len(dec), out=dec), "xml:decode")
     return p
 
 def url_cases(ctx, cases):
@@ -131,7 +137,7 @@ def url_cases(ctx, cases):
             t = bytes(c[nm])
             if t in seen: continue
             seen.add(t)
-            p.case("urldec %s %d" % (hexs(t), len(src) + 1), dict(rc=0, n=len(src), out=src),
+            p.case("urldec %s %d" % (hexs(t), len(src) + 1), dict(exact_len=True, rc=0, n=len(src), out=src),
                    "url:decode:" + nm, nontrivial=(b"%" in t))
     return p
 
@@ -144,7 +150,7 @@ def num_cases(ctx, cases):
         t = c["t"]; text = bytes(c["text"]); v = limbs_hex(c["v"]); cls = c["cls"]; nm = c["name"]
         for f in (0, 1):
             # capacity = text + NUL, which is what the macros themselves demand ((_len + 1) > _size -> ENOSPC)
-            p.case("numfmt %s %d %d %d" % (v, len(text) + 1, t, f), dict(rc=0, n=len(text), out=text),
+            p.case("numfmt %s %d %d %d" % (v, len(text) + 1, t, f), dict(exact_len=True, rc=0, n=len(text), out=text),
                    "num2str:" + cls, cls=cls)
             p.case("numparse %s 0 %d %d" % (hexs(text), t, f), dict(v=v), "str2num:" + cls, cls=cls)
             if c["signed"] and not c["neg"]:
@@ -261,7 +267,7 @@ def run(ctx):
     num = [c for c in corp["GenNum"] if c["cls"] == "pow10"][:2]
     ctx.add(samples=[{"op": "b64enc", "in": hexs(bytes(b["in"])), "expect": bytes(b["enc"]).decode()}] +
             [{"op": "numfmt", "type": c["name"], "value_hex": limbs_hex(c["v"]), "expect": bytes(c["text"]).decode()} for c in num] +
-            [{"op": "crc32b", "in": hexs(bytes(c["in"])), "expect": w32(c["model"][3])[8:]} for c in corp["GenCrc"][:1]])
+            [{"op": "crc32b", "in": hexs(bytes(c["in"])), "expect": w32(c["model"][3])[8:]} for c in corp["GenCrc"] if bytes(c["in"]) == b"123456789"])
     ctx.cov["rule"] = ("cases are the reachable states of the generator specs: all byte strings up to the configured length "
                        "over boundary bytes, every single byte value, seeded random strings, and for the ten integer types "
                        "0/1/2, every power of ten and both neighbours, 2^k and neighbours (all minima/maxima), both signs, "
